@@ -452,7 +452,7 @@ def mix_reference(case):
 
 ILLEGAL = ['redeclare_scen', 'redeclare_scen_after_exhaust', 'redeclare_dep', 'affine_int', 'foreign_rvar',
            'unknown_label', 'adapt_after_use', 'adapt_after_formulate', 'ldr_adapt_after_use', 'ldr_redeclare_dep',
-           'ldr_foreign_rvar', 'affine_times_random']
+           'ldr_foreign_rvar', 'affine_times_random', 'ldr_times_random']
 
 
 def gen_illegal(rng, cfg):
@@ -476,6 +476,32 @@ def gen_illegal(rng, cfg):
             tgt = rng.choice([['v', 'y'], ['i', ['v', 'y'], 0], ['i', ['v', 'y'], [0, 2]]])
             to = rng.choice([zsel('z', [j]), ['v', 'z']])
             ops.append({'op': 'adapt', 'tgt': tgt, 'to': to, 'expect': 'raise'})
+        elif which == 'ldr_times_random':
+            # a decision rule (or its sum with static decisions) times a random variable is not a robust linear model:
+            # something between building the product and solving has to raise
+            ops.append({'op': 'dvar', 'id': 't', 'm': 'm'})
+            ops.append({'op': 'dvar', 'id': 'x2', 'm': 'm', 'shape': [2]})
+            ops.append({'op': 'adapt', 'tgt': rng.choice([['v', 'y'], ['i', ['v', 'y'], 0], ['i', ['v', 'y'], [0, 2]]]),
+                        'to': rng.choice([zsel('z', [j]), ['v', 'z']])})
+            yv, xv = ['v', 'y'], ['v', 'x2']
+            vec = [yv, ['+', yv, xv], ['+', xv, yv], ['-', yv, xv], ['-', xv, yv], ['*', ['c', 2.0], yv], ['neg', yv], ['+', yv, ['c', [1.0, -0.5]]]]
+            z2, z0 = ['i', ['v', 'z'], [0, 2]], ['i', ['v', 'z'], 0]
+            a = rng.choice(vec)
+            e = rng.choice([['*', a, z2], ['*', z2, a], ['@', a, z2], ['@', z2, a], ['*', ['i', yv, 0], z0], ['*', z0, ['i', yv, 0]],
+                            ['*', ['+', ['i', yv, 0], ['v', 'x']], z0]])
+            ops.append({'op': 'expr', 'id': 'bad', 'e': e, 'expect': 'raise_tail'})
+            zset = [['<=', ['norm', ['v', 'z'], 'inf'], ['c', 1.0]]]
+            ops += [{'op': 'cons', 'id': 'cb', 'e': ['<=', ['sum', ['v', 'bad']], ['v', 't']], 'expect': 'raise_tail'},
+                    {'op': 'forall', 'id': 'cb', 'set': zset, 'expect': 'raise_tail'},
+                    {'op': 'cons', 'id': 'cy', 'e': ['<=', ['v', 'y'], ['c', 1.0]], 'expect': 'raise_tail'},
+                    {'op': 'forall', 'id': 'cy', 'set': zset, 'expect': 'raise_tail'},
+                    {'op': 'cons', 'id': 'cy2', 'e': ['>=', ['v', 'y'], ['c', -1.0]], 'expect': 'raise_tail'},
+                    {'op': 'forall', 'id': 'cy2', 'set': zset, 'expect': 'raise_tail'},
+                    {'op': 'cons', 'id': 'cx', 'e': ['<=', ['f', 'abs', ['v', 'x2']], ['c', 1.0]], 'expect': 'raise_tail'},
+                    {'op': 'cons', 'id': 'cx1', 'e': ['<=', ['f', 'abs', ['v', 'x']], ['c', 1.0]], 'expect': 'raise_tail'},
+                    {'op': 'st', 'm': 'm', 'ids': ['cb', 'cy', 'cy2', 'cx', 'cx1'], 'expect': 'raise_tail'},
+                    {'op': 'obj', 'm': 'm', 'how': 'min', 'e': ['v', 't'], 'expect': 'raise_tail'},
+                    {'op': 'solve', 'm': 'm', 'solver': rng.choice(['def', 'grb', 'ort']), 'expect': 'raise_tail'}]
         else:
             ops += [{'op': 'model', 'id': 'm2', 'kind': 'ro'}, {'op': 'rvar', 'id': 'z2', 'm': 'm2', 'shape': [n]}]
             ops.append({'op': 'adapt', 'tgt': ['v', 'y'], 'to': ['v', 'z2'], 'expect': 'raise'})
@@ -551,15 +577,50 @@ def gen_illegal(rng, cfg):
         bad['expect'] = 'raise'
         ops.append(bad)
     elif which == 'affine_times_random':
-        ops.append({'op': 'adapt', 'tgt': ['v', 'y'], 'to': zsel('z', [0])})
-        form = rng.randrange(3)
+        # an affinely adaptive expression (the decision itself, or a sum / difference / multiple with static decisions and
+        # numbers, adaptive part on either side) times a random variable: somewhere between building the expression and
+        # solving a model that uses it (inside E or not), RSOME has to raise
+        ops += [{'op': 'dvar', 'id': 'x', 'm': 'm', 'shape': [2]}, {'op': 'dvar', 'id': 't', 'm': 'm'},
+                {'op': 'supp', 'amb': 'F', 'scen': None, 'set': [['<=', ['norm', ['v', 'z'], 'inf'], ['c', 1.0]]]},
+                {'op': 'adapt', 'tgt': rng.choice([['v', 'y'], ['i', ['v', 'y'], [0, 2]]]), 'to': rng.choice([zsel('z', [0]), ['v', 'z']])}]
+        yv, xv = ['v', 'y'], ['v', 'x']
+        vec = {'y': yv, 'y+x': ['+', yv, xv], 'x+y': ['+', xv, yv], 'y-x': ['-', yv, xv], 'x-y': ['-', xv, yv],
+               '2y+x0': ['+', ['*', ['c', 2.0], yv], ['i', xv, 0]], 'y+c': ['+', yv, ['c', [1.0, -0.5]]], '-y': ['neg', yv],
+               'y*2': ['*', yv, ['c', 2.0]], '(y+x)-x': ['-', ['+', yv, xv], xv]}
+        sca = {'y0': ['i', yv, 0], 'y0+x0': ['+', ['i', yv, 0], ['i', xv, 0]], 'y1-x0': ['-', ['i', yv, 1], ['i', xv, 0]],
+               'x1+y0': ['+', ['i', xv, 1], ['i', yv, 0]], 'sum(y)+x0': ['+', ['sum', yv], ['i', xv, 0]]}
+        z2, z0 = ['i', ['v', 'z'], [0, 2]], ['i', ['v', 'z'], 0]
+        form = rng.randrange(6)
         if form == 0:
-            e = ['*', ['i', ['v', 'y'], 0], ['i', ['v', 'z'], 0]]
+            a = sca[rng.choice(sorted(sca))]
+            e = ['*', a, z0] if rng.random() < 0.5 else ['*', z0, a]
         elif form == 1:
-            e = ['@', ['v', 'y'], ['i', ['v', 'z'], [0, 2]]]
+            a = vec[rng.choice(sorted(vec))]
+            e = ['*', a, z0] if rng.random() < 0.5 else ['*', z0, a]
+        elif form == 2:
+            a = vec[rng.choice(sorted(vec))]
+            e = ['*', a, z2] if rng.random() < 0.5 else ['*', z2, a]
+        elif form == 3:
+            e = ['@', vec[rng.choice(sorted(vec))], z2]
+        elif form == 4:
+            e = ['@', z2, vec[rng.choice(sorted(vec))]]
         else:
-            e = ['@', ['i', ['v', 'z'], [0, 2]], ['v', 'y']]
-        ops.append({'op': 'expr', 'id': 'bad', 'e': e, 'expect': 'raise'})
+            e = ['sum', ['*', vec[rng.choice(sorted(vec))], z2]]
+        ops.append({'op': 'expr', 'id': 'bad', 'e': e, 'expect': 'raise_tail'})
+        use = rng.randrange(3)
+        tot = ['sum', ['v', 'bad']]
+        if use == 0:        # robust row
+            ops.append({'op': 'cons', 'id': 'cb', 'e': ['<=', tot, ['v', 't']], 'expect': 'raise_tail'})
+        elif use == 1:      # worst-case expectation row
+            ops.append({'op': 'cons', 'id': 'cb', 'e': ['<=', ['E', tot], ['v', 't']], 'expect': 'raise_tail'})
+        else:               # inside the objective
+            ops.append({'op': 'cons', 'id': 'cb', 'e': ['>=', ['v', 't'], ['c', -5.0]], 'expect': 'raise_tail'})
+        ops += [{'op': 'cons', 'id': 'cx', 'e': ['<=', ['f', 'abs', ['v', 'x']], ['c', 1.0]], 'expect': 'raise_tail'},
+                {'op': 'cons', 'id': 'cy', 'e': ['<=', ['f', 'abs', ['v', 'y']], ['c', 1.0]], 'expect': 'raise_tail'},
+                {'op': 'st', 'm': 'm', 'ids': ['cb', 'cx', 'cy'], 'expect': 'raise_tail'},
+                {'op': 'obj', 'm': 'm', 'how': 'minsup', 'e': ['E', ['+', ['v', 't'], tot]] if use == 2 else ['E', ['v', 't']],
+                 'amb': 'F', 'expect': 'raise_tail'},
+                {'op': 'solve', 'm': 'm', 'solver': rng.choice(['def', 'grb', 'ort']), 'expect': 'raise_tail'}]
     return {'kind': 'illegal', 'which': which, 'ops': ops, 'labels': labels, 'intlab': intlab}
 
 
@@ -687,6 +748,19 @@ def check_case(case, props):
         for op in ops:
             rec = it.step(op)
             stats['events'] += 1
+            if op.get('expect') == 'raise_tail':
+                # the illegal construct starts here: some step from here to the end of the history has to raise
+                if not rec['ok']:
+                    stats['illegal_attempted'][case['which']] = stats['illegal_attempted'].get(case['which'], 0) + 1
+                    stats['checks_c13'] += 1
+                    break
+                if op is ops[-1]:
+                    stats['illegal_attempted'][case['which']] = stats['illegal_attempted'].get(case['which'], 0) + 1
+                    stats['checks_c13'] += 1
+                    bad_ = [o for o in ops if o.get('expect') == 'raise_tail'][0]
+                    viol('C13', 'illegal-accepted', 'illegal construct (%s) was accepted silently up to and including the solve: %s'
+                         % (case['which'], _short(bad_)), tags=[case['which']])
+                continue
             if op.get('expect') == 'raise':
                 stats['illegal_attempted'][case['which']] = stats['illegal_attempted'].get(case['which'], 0) + 1
                 stats['checks_c13'] += 1
